@@ -38,7 +38,17 @@ def _lin(ctx):
     return [generic.engine_run(ctx, "lin", ["--seed", str(ctx.seed), "--n", str(n)], "lin", timeout=1500)]
 
 
-EXTRA = {"C09": _lin}
+def _stress(ctx):
+    import os
+    n = 9 if not ctx.thorough else 45
+    out = [generic.engine_run(ctx, "stress", ["--seed", str(ctx.seed), "--n", str(n)], "stress", timeout=1500)]
+    # the other timer-channel semantics (go.mod of the harness says go 1.21 => asynctimerchan=1 by default)
+    out.append(generic.engine_run(ctx, "stress", ["--seed", str(ctx.seed + 1), "--n", str(n)], "stress_synctimer", timeout=1500,
+                                  env=dict(os.environ, GODEBUG="asynctimerchan=0")))
+    return out
+
+
+EXTRA = {"C09": _lin, "C03": _stress, "C08": _stress}
 
 
 def replay(ctx, path):
